@@ -189,10 +189,19 @@ class C14(runner.Prop):
         @st.composite
         def cases(draw):
             t = draw(gen.tree_descs(ml))
-            u, _e = gen.near_miss(draw, t)          # a mismatching operand for the binary operations
+            cfg = draw(gen.configs())
+            key_edits = ('key_rename', 'key_add', 'key_remove')
+            if gen.contains_tag(t, ('dict', 'dd')) and draw(st.booleans()):
+                # stratum: the mismatch is a key-set mismatch between dicts (the error path that touches key lists),
+                # more often than not with insertion-ordered dicts
+                u, _e = gen.near_miss(draw, t, edits=key_edits)
+                if draw(st.booleans()):
+                    cfg = dict(cfg, mode=draw(st.sampled_from(['ins_global', 'ins_ns'])), ns=draw(st.sampled_from([U.NS, U.NS, ''])))
+            else:
+                u, _e = gen.near_miss(draw, t)          # a mismatching operand for the binary operations
             if draw(st.booleans()):
                 u = gen.dict_variant(draw, u)
-            return {'t': t, 'u': u, 'cfg': draw(gen.configs()),
+            return {'t': t, 'u': u, 'cfg': cfg,
                     'actions': draw(st.lists(st.sampled_from(ACTIONS), min_size=1, max_size=6)),
                     'seed': draw(st.integers(0, 3)), 'victim': draw(st.sampled_from(sorted(U.VICTIMS)))}
 
